@@ -170,8 +170,10 @@ package avfs
 //@ func scanChunk
 //@   requires vfs != nil
 //@   ensures[C13] len(r1) + len(r2) <= len(pattern)
-//@   loop 0 invariant[C13] len(pattern) <= len(old(pattern))
-//@   loop 1 invariant[C13] 0 <= i && i <= len(pattern)
+//@   ensures[C13] r0 == (len(pattern) > 0 && pattern[0] == '*')
+//@   ensures[C13] (len(r1) == 0 ==> len(r2) == 0) && (len(r1) > 0 ==> r1[0] != '*') && (len(r2) > 0 ==> r2[0] == '*')
+//@   loop 0 invariant[C13] len(pattern) <= len(old(pattern)) && (star ==> len(old(pattern)) > 0 && old(pattern)[0] == '*') && (!star ==> pattern == old(pattern))
+//@   loop 1 invariant[C13] 0 <= i && i <= len(pattern) && (len(pattern) == 0 || pattern[0] != '*')
 //@   modifies nothing
 
 //@ func matchChunk
